@@ -468,6 +468,11 @@ impl ScalarIndex for NGramIndex {
                 if missing {
                     return Ok(SearchResult::Exact(RowIdTreeMap::new()));
                 }
+                if row_offsets.is_empty() {
+                    // No trigram survived tokenization (every trigram of the search string contains a
+                    // non-alphanumeric character).  We know nothing, need to recheck all
+                    return Ok(SearchResult::AtLeast(RowIdTreeMap::new()));
+                }
                 let posting_lists = futures::stream::iter(
                     row_offsets
                         .into_iter()
